@@ -10,6 +10,7 @@
 package main
 
 import (
+	"os"
 	"context"
 	"fmt"
 	"strings"
@@ -403,6 +404,92 @@ func deletedBehindCache(c *kit.Ctx, ssa bool) {
 	}
 }
 
+// ---- (b3) the XRD's referenceable version changes under a bound claim ----
+
+// versionSwitch: a claim is bound while the XRD's referenceable XR version is v1; the author then
+// makes v2 the referenceable version (both stay served) and the claim controller is restarted for
+// it, as the offered reconciler does. The claim must keep its XR: same name, no second XR.
+func versionSwitch(c *kit.Ctx, ssa bool) {
+	mode := map[bool]string{false: "csa", true: "ssa"}[ssa]
+	for steps := 0; steps <= 3; steps++ {
+		caseName := fmt.Sprintf("version-switch/%s/after%d", mode, steps)
+		// steps == 0: one claim reconcile, then the XR disappears (it was never reconciled, so it has
+		// no finalizer) - the claim still records its name, which the next sync must reuse
+		xrMissing := steps == 0
+		if xrMissing {
+			steps, caseName = 1, fmt.Sprintf("version-switch/%s/after1-xr-missing", mode)
+		}
+		if !c.Want(caseName) {
+			if xrMissing {
+				steps = 0
+			}
+			continue
+		}
+		w := sim.NewWorld(xrk.Scheme(), uint64(c.Seed)*43+uint64(steps))
+		w.MustSeed("user", xrk.XRDObject(xrk.XRDOpts{Group: "ex.org", Kind: "XThing", Plural: "xthings", ClaimKind: "Thing", ClaimPlural: "things", Versions: []string{"v1", "v2"}}))
+		w.MustSeed("user", xrk.ResourcesComposition("comp", "ex.org/v1", "XThing", []map[string]any{{"name": "a", "base": nop("NopA", "1")}}))
+		if err := xrk.ReconcileComposition(w, "comp"); err != nil {
+			panic(err)
+		}
+		w.MustSeed("user", claimObj("ns1", "c1"))
+		m := newMonitor()
+		m.actorClaim["claim"] = claimKey("ns1", "c1")
+		w.AddHook(m.hook)
+		ce := xrk.NewClaimEnv(w, xrdName, ssa)
+		xe := xrk.NewXREnv(w, ce.XRD)
+		for i := 0; i < steps; i++ {
+			_, _, _ = ce.Reconcile("ns1", "c1")
+			if i > 0 {
+				for _, xr := range w.ListObjs(xrGK) {
+					_, _, _ = xe.Reconcile(sim.Str(xr, "metadata", "name"))
+				}
+			}
+		}
+		if xrMissing {
+			for _, xr := range w.ListObjs(xrGK) {
+				_ = w.Client("user").Delete(context.Background(), &unstructured.Unstructured{Object: xr})
+			}
+		}
+		before := len(w.ListObjs(xrGK))
+		refBefore := sim.Str(w.GetObj(claimKey("ns1", "c1")), "spec", "resourceRef", "name")
+		// the author flips the referenceable version
+		d := &unstructured.Unstructured{Object: w.GetObj(sim.Key{Group: "apiextensions.crossplane.io", Kind: "CompositeResourceDefinition", Name: xrdName})}
+		vs, _, _ := unstructured.NestedSlice(d.Object, "spec", "versions")
+		for _, v := range vs {
+			vm := v.(map[string]any)
+			vm["referenceable"] = vm["name"] == "v2"
+		}
+		_ = unstructured.SetNestedSlice(d.Object, vs, "spec", "versions")
+		if err := w.Client("user").Update(context.Background(), d); err != nil {
+			panic(err)
+		}
+		ce.Rebuild()
+		from := w.LogLen()
+		for i := 0; i < 3; i++ {
+			_, _, _ = ce.Reconcile("ns1", "c1")
+		}
+		after := len(w.ListObjs(xrGK))
+		refAfter := sim.Str(w.GetObj(claimKey("ns1", "c1")), "spec", "resourceRef", "name")
+		if refBefore != "" && refAfter != refBefore {
+			m.add("O4-recorded-xr-name-replaced", fmt.Sprintf("claim referenced XR %q before the referenceable version changed and %q afterwards", refBefore, refAfter))
+		}
+		if after > 1 {
+			m.add("O1-more-than-one-xr", fmt.Sprintf("%d XRs exist for the claim after the referenceable version changed (%d before)", after, before))
+		}
+		c.Eval(caseName, refBefore != "")
+		c.Count("version_switch_executions", 1)
+		if xrMissing {
+			steps = 0
+		}
+		if os.Getenv("DBG") != "" {
+			fmt.Fprintln(os.Stderr, "DBG", caseName, fmt.Sprint(w.GetObj(claimKey("ns1", "c1"))["status"]), refBefore, refAfter, before, after, strings.Join(shortLog(w, from, 60), "\n   "))
+		}
+		report(c, m, mode, caseName, func() any {
+			return map[string]any{"mode": mode, "claim_reconciles_before_switch": steps, "xr_name_before": refBefore, "xr_name_after": refAfter, "trace": shortLog(w, from, 60)}
+		})
+	}
+}
+
 // ---- (c) interleavings ----
 
 func interleavings(c *kit.Ctx, ssa bool, n int) {
@@ -686,6 +773,7 @@ func main() {
 		faultEnumeration(c, ssa)
 		staleReads(c, ssa)
 		deletedBehindCache(c, ssa)
+		versionSwitch(c, ssa)
 		interleavings(c, ssa, c.N(150, 3000))
 		preemptions(c, ssa)
 		staticRefs(c, ssa)
